@@ -128,9 +128,9 @@ func (lp *Listpack) Next() []byte {
 		negmax = math.MaxUint64 // uint64_max
 		lp.p += lpEncodeBacklen(1 + 8)
 	} else {
-		uval = 12345678900000000 + uint64(fireByte)
-		negstart = math.MaxUint64
-		negmax = 0
+		// the end byte or an unknown encoding: there is no entry to return and the cursor
+		// cannot advance, so callers looping on corrupted counts would never terminate
+		panic(fmt.Errorf("list pack, no entry at offset %d : encoding byte %x", inx, fireByte))
 	}
 
 	/* We reach this code path only for integer encodings.
